@@ -172,34 +172,82 @@ def clause4(P, res):
             res.violated(rid, key, "[hybrid-lock-async] " + (detail if pend else "poll never returns Pending"), where=f"{pb.file}:{pb.line}", witness=wit)
 
 
+def woken_tests(b):
+    """assign events computing `<node state> == WOKEN` (or !=) in body b"""
+    out = []
+    for e in b.events:
+        if e.kind == "assign" and e.data["r"]["k"] == "bin" and e.data["r"]["op"] in ("Eq", "Ne"):
+            for s in ("a", "b"):
+                k = b.const_of_operand(e.data["r"][s])
+                if k is not None and str(k.get("path", "")).endswith("::WOKEN"):
+                    out.append(e)
+    return out
+
+
+def sync_family(P, root, depth=2):
+    """root body plus its callees inside fibre::sync (helpers a refactor may have extracted)"""
+    seen = {root.id: root}
+    frontier = [root]
+    for _ in range(depth):
+        nxt = []
+        for b in frontier:
+            for e in b.calls():
+                t = P.body(e.callee_resolved)
+                if t is not None and t.id not in seen and (t.id.startswith("fibre::sync::") or t.id.startswith("fibre::<sync::")) and t.name not in ("wake_next", "wake_waiters", "wake"):
+                    seen[t.id] = t
+                    nxt.append(t)
+        frontier = nxt
+    return list(seen.values())
+
+
 def clause5(P, res):
     rid = "C10-5"
-    res.rule(rid, "a cancelled lock future unlinks its node under the wait-list lock and forwards a wake it consumed: Drop of each lock future "
-                  "calls unlink with the list guard held and reaches wake_next / wake_waiters on the was-woken path")
+    res.rule(rid, "a cancelled lock future unlinks its node under the wait-list lock and forwards a wake it consumed: the Drop of each lock future (or a sync-module "
+                  "helper it calls) unlinks the node with the list guard held, and the call to wake_next / wake_waiters is taken exactly on the outcome of comparing the "
+                  "node's state with WOKEN — not on list membership or any other proxy (a woken writer stays linked while it re-contends)")
     for adt in ("fibre::sync::mutex::MutexFuture", "fibre::sync::rwlock::ReadFuture", "fibre::sync::rwlock::WriteFuture"):
         d = common.drop_body(P, adt)
         key = adt + "::drop"
         if d is None:
             res.violated(rid, key, "lock future has no Drop: a cancelled waiter stays linked (dangling node) and swallows the wake")
             continue
-        locks = [e for e in d.calls() if e.method == "lock" and e.args and d.path_of_operand(e.args[0]).endswith(".waiters")]
-        held = mir.guards_held(d, [(l, None) for l in locks])[0] if locks else set()
-        unl = [e for e in d.calls() if e.method == "unlink"]
-        fwd = [e for e in d.calls() if e.method in ("wake_next", "wake_waiters")]
+        fam = sync_family(P, d)
         probs = []
+        unl = [(b, e) for b in fam for e in b.calls() if e.method == "unlink"]
         if not unl:
             probs.append("never unlinks its node")
-        for u in unl:
-            if u.pos not in held:
+        for b, u in unl:
+            locks = [e for e in b.calls() if e.method == "lock" and e.args and b.path_of_operand(e.args[0]).endswith(".waiters")]
+            held = mir.guards_held(b, [(l, None) for l in locks])[0] if locks else set()
+            takes_guard = any("ListGuard" in (l.get("ty") or "") for l in b.locals[1:b.argc + 1])
+            if u.pos not in held and not takes_guard:
                 probs.append(f"unlinks at {u.loc} without holding the wait-list lock")
+        fwd = [(b, e) for b in fam for e in b.calls() if e.method in ("wake_next", "wake_waiters")]
         if not fwd:
             probs.append("never forwards a consumed wake (a waiter woken and then cancelled leaves the next waiter asleep forever)")
-        else:
-            # the forward must be conditional on having observed WOKEN (a load of node.state) and come after the unlink
-            st = [e for e in d.calls() if e.is_atomic and e.method == "load" and e.args and d.path_of_operand(e.args[0]).endswith(".state")]
-            if not st or not all(d.dominated_by_any(f.pos, {s.pos for s in st}) for f in fwd):
-                probs.append("forwards a wake without having read the node's WOKEN state")
-            if unl and not all(d.dominated_by_any(f.pos, {u.pos for u in unl}) for f in fwd):
+        for b, f in fwd:
+            # the branch that decides the forward must be the outcome of `state == WOKEN`: directly, or through the bool returned by a helper that computes it
+            ok = False
+            for blk in range(len(b.blocks)):
+                if b.is_cleanup(blk):
+                    continue
+                t = b.term(blk)
+                if t["k"] != "switch" or t.get("on", {}).get("kind") == "discr":
+                    continue
+                evs, _, _ = mir.operand_sources(b, t["o"])
+                direct = any(e in evs for e in woken_tests(b))
+                via = any(e.kind == "call" and P.body(e.callee_resolved) is not None and P.body(e.callee_resolved) in fam and woken_tests(P.body(e.callee_resolved)) for e in evs)
+                if not (direct or via):
+                    continue
+                for lab in ("true", "false"):
+                    es = b.edges_by_label(blk).get(lab, [])
+                    if es and b.edges_dominate(es, f.pos):
+                        ok = True
+            if not ok:
+                probs.append(f"the wake forwarded at {f.loc} is not decided by the node's WOKEN state (a proxy such as list membership is wrong for writers, which stay linked after being woken)")
+        for b, f in fwd:
+            same = [u for ub, u in unl if ub is b]
+            if same and not b.dominated_by_any(f.pos, {u.pos for u in same}) and not any(ub is not b for ub, _ in unl):
                 probs.append("forwards the wake before unlinking")
         if probs:
             res.violated(rid, key, "; ".join(probs), where=f"{d.file}:{d.line}", witness=probs)
